@@ -203,6 +203,10 @@ def handleMk (st : DSt) (r : Array String) : Except Verdict DSt := do
   | _ => .ok st
 
 def handleC12 (c : Case) : Verdict :=
+  -- the machine was too busy to schedule the processes within 30 s (some goroutine still runnable):
+  -- operations of the teardown are not recorded, nothing can be said about this case
+  if (c.find "status").map (·.getD 1 "") == some "starved" then .agree false ["discarded-starved"] else
+  if (c.find "status").map (·.getD 1 "") != some "ok" then .differ "harness" s!"status {(c.find "status").map (·.toList)}" else
   let procs := c.findAll "proc"
   let ghosts := c.findAll "ghost"
   let mprocs : List Proc :=
